@@ -335,6 +335,26 @@ def _jsonable(v):
     return repr(type(v))
 
 
+def _attrs(o):
+    """(name, value) of every instance attribute, whether stored in __dict__ or in __slots__"""
+    names = list(getattr(o, "__dict__", {}).keys())
+    for cls in type(o).__mro__:
+        sl = cls.__dict__.get("__slots__", ())
+        if isinstance(sl, str):
+            sl = (sl,)
+        for n in sl:
+            if isinstance(sl, dict) or True:
+                if n not in names and n not in ("__dict__", "__weakref__"):
+                    names.append(n)
+    out = []
+    for n in names:
+        try:
+            out.append((n, getattr(o, n)))
+        except AttributeError:
+            pass
+    return out
+
+
 def deep_state(sess):
     """Everything publicly visible of the dispatcher, its observers and the
     environment, as a JSON-able value (used only for before/after equality)."""
@@ -352,7 +372,7 @@ def deep_state(sess):
     obs = []
     for s in d.subscribers:
         st = {}
-        for name, val in vars(s).items():
+        for name, val in _attrs(s):
             if name.startswith("_verif") or name in ("update", "reset", "dispatcher"):
                 continue
             if isinstance(val, collections.deque):
